@@ -634,26 +634,24 @@ Ipc::StoreMap::closeForUpdating(Update &update)
         Must(freshSplicingSlice.next == suffixStart);
     // either way, fresh chain uses the stale chain suffix now
 
-    // make the fresh anchor/chain readable for everybody
-    update.fresh.anchor->lock.switchExclusiveToShared();
-    // but the fresh anchor is still invisible to anybody but us
-
-    // This freeEntry() code duplicates the code below to minimize the time when
-    // the freeEntry() race condition (see the Race: comment below) might occur.
-    if (update.stale.anchor->waitingToBeFreed)
-        freeEntry(update.fresh.fileNo);
+    // The fresh anchor stays exclusively locked (i.e. unreadable) until a
+    // deletion of the stale anchor has been propagated to it below.
 
     /* any external changes were applied to the stale anchor/chain until now */
     relocate(update.stale.name, update.fresh.fileNo);
     /* any external changes will apply to the fresh anchor/chain from now on */
 
-    // Race: If the stale entry was deleted by some kid during the assignment,
-    // then we propagate that event to the fresh anchor and chain. Since this
-    // update is not atomically combined with the assignment above, another kid
-    // might get a fresh entry just before we have a chance to free it. However,
-    // such deletion races are always possible even without updates.
+    // If the stale entry was deleted by some kid before the assignment above,
+    // then we propagate that event to the fresh anchor and chain. Nobody can
+    // get the fresh entry before we do that because it is not readable yet: A
+    // reader that starts after the deletion must not find the entry. A deleter
+    // that marks the stale anchor after this check re-resolves the key and
+    // marks the fresh anchor itself; see freeEntryByKey().
     if (update.stale.anchor->waitingToBeFreed)
-        freeEntry(update.fresh.fileNo);
+        freeEntry(update.fresh.fileNo); // marks our exclusively locked anchor
+
+    // make the fresh anchor/chain readable for everybody
+    update.fresh.anchor->lock.switchExclusiveToShared();
 
     /* free the stale chain prefix except for the shared suffix */
     update.stale.anchor->splicingPoint = update.stale.splicingPoint;
